@@ -340,6 +340,11 @@ def text_cases(rng, n):
            dict(text=True, stages=['{a: {x: 1}}', "{a: !metadata{{'delete': True, 'priority': -1}} }"], expect={'a': {'x': 1}}),
            dict(text=True, stages=['{a: !weak {x: 1}, b: 0}', '{a: {y: 2}}', '{a: !del }'], expect={'b': 0}),
            dict(text=True, stages=['{a: !weak {x: 1}}', '{a: {y: 2}}', "{a: !metadata{{'delete': True, 'priority': -1}} }"], expect={'a': {'x': 1, 'y': 2}}),
+           # (d) a replacing list whose element is tagged !merge, met by a !force-protected older element: the survivor and the !merge element
+           # combine key-wise / index-wise (the protection covers what the older element holds), the other new elements keep their positions
+           dict(text=True, stages=['{a: [{x: 1}, 2]}', '{a: [!merge {y: 5}, 7]}'], expect={'a': [{'y': 5}, 7]}),
+           dict(text=True, stages=['{a: [!force {x: 1}, 2]}', '{a: [!merge {y: 5}, 7]}'], expect={'a': [{'x': 1, 'y': 5}, 7]}),
+           dict(text=True, stages=['{a: [!force {k: [1, 2, 3]}, 0]}', '{a: [{k: !merge [9, 8, 7, 6]}, 5]}'], expect={'a': [{'k': [1, 2, 3, 6]}, 5]}),
            dict(text=True, stages=['{a: {a: !weak {a: 1}}}', '{a: {a: {b: 2}}}', "{a: {a: !metadata{{'delete': True, 'priority': -1}} }}"], expect={'a': {'a': {'a': 1, 'b': 2}}})]
     for _ in range(n):
         b = gen.gen_doc(rng, PLAIN, root_tag_ok=False)
